@@ -98,13 +98,15 @@ def find_loop(prog: Program, fn: FuncInfo, pred):
     return None, None
 
 
-def inlined_summaries(prog: Program, fn: FuncInfo, args=None, depth=0, outer=None):
+def inlined_summaries(prog: Program, fn: FuncInfo, args=None, depth=0, outer=None, site_pc=(), sink=None):
     """[(summary, mapping)] for fn and every unknown helper it calls; the helpers are summarised with their parameters bound to
     the caller's argument terms, and `mapping` rewrites their reads of receiver attributes into the caller's values at the call
     (so that terms inside a helper are expressed over the *anchor's* parameters and state)."""
     from .terms import bind_args, const, replace, summarize
     s = summarize(prog, fn, args or {}, depth=depth)
     out = [(s, dict(outer or {}))]
+    if sink is not None:
+        sink.append((s, dict(outer or {}), tuple(site_pc)))          # (+ the path condition, in the anchor's frame, under which fn is entered)
     if depth >= 4:
         return out
     par = {}
@@ -160,8 +162,31 @@ def inlined_summaries(prog: Program, fn: FuncInfo, args=None, depth=0, outer=Non
         for p, d in list(zip(pos[len(pos) - len(a.defaults):], a.defaults)):
             if p.arg not in amap and isinstance(d, ast.Constant):
                 amap[p.arg] = const(d.value)
-        out += inlined_summaries(prog, t, amap, depth + 1, mapping)
+        pc_here = ()
+        if sink is not None:
+            st_ = n
+            while st_ in par and st_ not in s.ta.env_at:
+                st_ = par[st_]
+            own = tuple(s.ta.env_at[st_].pc) if st_ in s.ta.env_at else ()
+            pc_here = tuple(site_pc) + tuple((replace(c_, outer) if outer else c_, tr_) for c_, tr_ in own)
+        out += inlined_summaries(prog, t, amap, depth + 1, mapping, pc_here, sink)
     return out
+
+
+def pc_lookup(prog: Program, anchor: FuncInfo):
+    """statement node -> path condition (in the anchor's frame) for statements of the anchor *or of the unknown helpers it calls*: the
+    condition under which the helper is entered followed by the helper's own condition at the statement."""
+    from .terms import replace
+    sink = []
+    inlined_summaries(prog, anchor, sink=sink)
+
+    def get(node):
+        for s, mapping, site_pc in sink:
+            if node in s.ta.env_at:
+                own = tuple((replace(c, mapping) if mapping else c, tr) for c, tr in s.ta.env_at[node].pc)
+                return tuple(site_pc) + own
+        return None
+    return get
 
 
 def term_lookup(prog: Program, fns):
